@@ -975,6 +975,7 @@ fn main() {
         let ch = &sc["runtime"]["chaos"];
         verif::set_chaos(ch.get("seed").and_then(|x| x.as_u64()).unwrap_or(0), ch.get("max_yields").and_then(|x| x.as_u64()).unwrap_or(0));
         verif::set_pause(ch.get("pause_us").and_then(|x| x.as_u64()).unwrap_or(0));
+        verif::set_pause_only(ch.get("pause_only").and_then(|x| x.as_str()));
         lock(&panics).clear();
         let rec: Rec = Arc::new(Mutex::new(vec![]));
         let workers = sc["runtime"].get("workers").and_then(|x| x.as_u64()).unwrap_or(2) as usize;
